@@ -102,7 +102,12 @@ def generate(rng, tier, index):
     modes = ["random", "random", "random", "pct", "line"] if tier == "quick" else \
         ["random", "random", "pct", "line"]
     return {"world": wp, "rpc": r, "sets": sets, "schedules": k,
-            "sched_seed": rng.randrange(2**31), "modes": modes}
+            "sched_seed": rng.randrange(2**31), "modes": modes,
+            # when the copies are made: right after the open, or anew before every actor set -
+            # i.e. after the tree has been loaded from (optionally after a warm-up load of every
+            # image) - and whether copy 1 is a copy of the tree or a copy of a copy
+            "pickle": rng.choice(["at-open", "per-set", "per-set", "per-set-warm"]),
+            "copy_of_copy": rng.random() < 0.3}
 
 
 def _generate_systematic(rng, tier):
@@ -193,6 +198,21 @@ def execute(plan):
         for si, aset in enumerate(plan["sets"]):
             if only is not None and only[0] != si:
                 continue
+            how = plan.get("pickle", "at-open")
+            if how != "at-open" and si > 0 or how == "per-set-warm":
+                try:
+                    if how == "per-set-warm":
+                        for name in prod.images:
+                            tree["imagery"][prod.groups[name]]["data"].isel(rows=0).values
+                    c1 = pickle.loads(pickle.dumps(tree))
+                    if plan.get("copy_of_copy"):
+                        c1 = pickle.loads(pickle.dumps(c1))
+                    copies[1] = c1
+                    bump("late-pickles")
+                except Exception as e:  # noqa: BLE001
+                    violations.append(Violation(ID, "load-raised", "pickling", {
+                        "error": exc_text(e), "set": si}))
+                    continue
             # sequential reference, selection by selection
             jobs = []
             solo_events = 0
